@@ -402,6 +402,7 @@ program drv
         arr => pool_get(int(id, C_INT), cap)
       end if
       val = size(arr)
+#ifndef VT_CFI
     case ('V')
       if (op(2:2) == 'f') then
         vec = 0
@@ -412,6 +413,7 @@ program drv
         val = avec(1) * 100 + avec(2) * 10 + avec(3)
         deallocate(avec)
       end if
+#endif
     case ('T')
       vt_seen = -1
       select case (op(2:2))
@@ -421,20 +423,24 @@ program drv
       case ('c')
         call take_cstr('plain')
         vt_seen = 0
+#ifndef VT_CFI
       case ('n')
         call names_case(id)
+#endif
       case ('m')
         call mod_case(id, val)
       case ('o')
         call out_case(id, val)
       case ('g')
         call grow_case(id, val)
+#ifndef VT_CFI
       case ('v')
         call vec_case(id)
       case ('f')
         call fill_case(id, val)
       case ('w')
         call vecstr_case(id)
+#endif
       end select
       if (op(2:2) /= 'm' .and. op(2:2) /= 'o' .and. op(2:2) /= 'g' .and. op(2:2) /= 'f') val = vt_seen
     end select
@@ -452,6 +458,7 @@ contains
     if (c_associated(h(1)%cxxmem%addr)) a1 = 1
     call vt_status_f(name // C_NULL_CHAR, v, a0, h(0)%cxxmem%idtor, a1, h(1)%cxxmem%idtor)
   end subroutine
+#ifndef VT_CFI
   subroutine names_case(n)
     integer, intent(in) :: n
     character(len=n) :: names(2)
@@ -459,6 +466,8 @@ contains
     names(2) = 'c'
     call take_names(names)
   end subroutine
+#endif
+#ifndef VT_CFI
   subroutine vecstr_case(n)
     integer, intent(in) :: n
     character(len=n) :: names(2)
@@ -466,6 +475,7 @@ contains
     names(2) = 'c'
     call take_vec_str(names)
   end subroutine
+#endif
   subroutine mod_case(n, v)
     integer, intent(in) :: n
     integer(C_LONG), intent(out) :: v
@@ -501,6 +511,7 @@ contains
       if (sv(k:k) /= ' ') v = v + 1
     end do
   end subroutine
+#ifndef VT_CFI
   subroutine fill_case(n, val)
     ! the library produces n values, the caller passes a three-element section with a guard on either side
     integer, intent(in) :: n
@@ -521,6 +532,7 @@ contains
     end do
     call take_vec(v)
   end subroutine
+#endif
 end program drv
 """
 
@@ -1023,6 +1035,34 @@ def build_drivers(ctx):
         if rc != 0:
             raise build.BuildError("link fortran", se[:800])
         exes["f" + tag] = os.path.join(out, "fdrv_" + tag)
+    # the same module generated with F_CFI (std::vector does not generate under F_CFI: recorded under C05)
+    y2 = yaml.safe_load(YAML)
+    y2["options"]["F_CFI"] = True
+    y2["declarations"] = [d for d in y2["declarations"] if "vector" not in d["decl"]]
+    wd2 = ctx.subdir("build-cfi")
+    r2, _ = gen.gen_tree(wd2, y2, keep=True)
+    if r2.status == "ok":
+        out2 = os.path.join(wd2, "out")
+        open(os.path.join(out2, "own.hpp"), "w").write(HPP)
+        open(os.path.join(out2, "subject.cpp"), "w").write(CPP)
+        open(os.path.join(out2, "fdriver.f90"), "w").write(FDRIVER)
+        objs = []
+        for s_ in sorted(f for f in os.listdir(out2) if f.endswith(".cpp")):
+            o = os.path.splitext(s_)[0] + ".o"
+            rc, so, se = build.sh(["g++", "-std=c++11", "-g", "-O0", "-w", "-I.", "-c", s_, "-o", o], out2)
+            if rc != 0:
+                raise build.BuildError("compile (F_CFI) %s" % s_, se[:800])
+            objs.append(o)
+        for src in ("wrapfown.f", "fdriver.f90"):
+            o = os.path.splitext(src)[0] + ".o"
+            rc, so, se = build.sh(["gfortran", "-cpp", "-DVT_CFI", "-ffree-form", "-ffree-line-length-none", "-g", "-O0", "-w", "-c", src, "-o", o], out2)
+            if rc != 0:
+                raise build.BuildError("compile (F_CFI) %s" % src, se[:800])
+            objs.append(o)
+        rc, so, se = build.sh(["gfortran", "-o", "fdrv_cfi"] + objs + ["-lstdc++", "-Wl,--wrap=malloc,--wrap=free,--wrap=strdup,--wrap=calloc"], out2)
+        if rc != 0:
+            raise build.BuildError("link fortran (F_CFI)", se[:800])
+        exes["fcfi"] = os.path.join(out2, "fdrv_cfi")
     return exes
 
 
@@ -1291,6 +1331,26 @@ def run(ctx):
                     break
             ctx.violation("fortran protocol %s" % key_for(hist, diff), "Fortran history %s: %s%s" % (" ".join(hist), diff or "exit %d" % rc, ("  stderr: " + se[-200:]) if rc else ""),
                           {"kind": "fortran", "history": list(hist)})
+    # the same histories (without the vector operations) on the module generated with F_CFI
+    if "fcfi" in exes:
+        ch = [h for h in fh if not any(op[0] == "V" or op[:2] in ("Tv", "Tw", "Tf", "Tn") for op in h)]  # char ** keeps a type(C_PTR) dummy under F_CFI
+        cres = isolate.pmap(run_history, [(exes["fcfi"], h, False) for h in ch], ctx.workers, chunksize=16)
+        for hist, (rc, got, se) in zip(ch, cres):
+            _, want = f_model_trace(hist)
+            if rc != 0 or not trace_matches(got, want):
+                diff = ""
+                first = "exit"
+                for i, w in enumerate(want):
+                    g = got[i] if i < len(got) else "(missing)"
+                    if not line_matches(g, w):
+                        diff = "after %s:\n      got      %s\n      expected %s" % (" ".join(hist[:i + 0]) or "(start)", g, w)
+                        first = hist[i - 1] if i else "init"
+                        break
+                # keyed by the operation after which the implementation first departs from the model
+                ctx.violation("fortran F_CFI first departure at %s" % first, "Fortran history %s with F_CFI: %s%s" % (" ".join(hist), diff or "exit %d" % rc, ("  stderr: " + se[-200:]) if rc else ""),
+                              {"kind": "fortran-cfi", "history": list(hist)})
+        ctx.count(transitions=len(ch), validated=len(ch))
+        ctx.part("fortran_cfi", transitions_executed=len(ch))
     fah = [h for h in fh if len(h) <= (2 if quick else 3)]
     fares = isolate.pmap(run_history, [(exes["fasan"], h, True) for h in fah], ctx.workers, chunksize=8)
     for hist, (rc, got, se) in zip(fah, fares):
